@@ -27,7 +27,7 @@ ASSUMPTIONS = [
 REQUIRED_CLASSES = ["in-order", "misordered", "unknown-name", "ignored-name", "contig-without-data", "cut-inside-group", "last-group-misplaced",
                     "iter", "pileup", "mask-sum", "compute", "track", "multistream", "forbes-jaccard", "kept-underscore-name", "text-typed-contig-column", "long-groups"]
 BOUNDS = {"quick": "genomes of 3 contigs (+1 ignored): every group sequence over 5 labels (326) x 3 chunkings x 7 consumers; 4-contig genomes sampled (600)",
-          "thorough": "genomes of up to 4 contigs: every group sequence over 6 labels (1957) x 4 chunkings x 7 consumers; 5000 sampled"}
+          "thorough": "genomes of up to 4 contigs: every group sequence over 6 labels (1957) x 4 chunkings x 7 consumers; 48000 sampled"}
 BUDGET_S = {"quick": 200, "thorough": 1500}
 
 CONSUMERS = ["iter", "pileup", "mask-sum", "compute", "track", "multistream", "forbes-jaccard"]
@@ -345,6 +345,6 @@ def tasks(tier, seed):
     else:
         for o in range(16):
             out.append(("task_core", dict(n_contigs=4, stride=16, offset=o)))
-        for j in range(16):
-            out.append(("task_sampled", dict(n=320, seed=seed * 100 + j)))
+        for j in range(32):
+            out.append(("task_sampled", dict(n=1500, seed=seed * 100 + j)))
     return out
